@@ -433,3 +433,65 @@ fn rule_pull_value_from_csr_memory(
 }
 
 // TODO: generic function that converts available value to memory location and vice versa
+
+/// Verification-only public wrappers around the private rewrite rules.
+#[cfg(rva_verif)]
+pub mod verif_hooks {
+    use super::{AvailableValueMap, InstructionProperties, MemoryLocation, ParserNode, Register};
+
+    pub fn rule_zero_to_const(
+        available_out: &mut AvailableValueMap<Register>,
+        available_in: &AvailableValueMap<Register>,
+        memory_out: &mut AvailableValueMap<MemoryLocation>,
+        memory_in: &AvailableValueMap<MemoryLocation>,
+    ) {
+        super::rule_zero_to_const(available_out, available_in, memory_out, memory_in);
+    }
+
+    pub fn rule_expand_address_for_load(
+        node: &ParserNode,
+        available_out: &mut AvailableValueMap<Register>,
+        available_in: &AvailableValueMap<Register>,
+    ) {
+        super::rule_expand_address_for_load(node, available_out, available_in);
+    }
+
+    pub fn rule_perform_math_ops(
+        node: &ParserNode,
+        available_out: &mut AvailableValueMap<Register>,
+        available_in: &AvailableValueMap<Register>,
+    ) {
+        super::rule_perform_math_ops(node, available_out, available_in);
+    }
+
+    pub fn rule_value_from_stack(
+        node: &impl InstructionProperties,
+        available_out: &mut AvailableValueMap<Register>,
+        memory_in: &AvailableValueMap<MemoryLocation>,
+    ) {
+        super::rule_value_from_stack(node, available_out, memory_in);
+    }
+
+    pub fn rule_known_values_to_stack(
+        memory_out: &mut AvailableValueMap<MemoryLocation>,
+        available_in: &AvailableValueMap<Register>,
+    ) {
+        super::rule_known_values_to_stack(memory_out, available_in);
+    }
+
+    pub fn rule_push_value_to_csr_memory(
+        node: &impl InstructionProperties,
+        memory_out: &mut AvailableValueMap<MemoryLocation>,
+        available_in: &AvailableValueMap<Register>,
+    ) {
+        super::rule_push_value_to_csr_memory(node, memory_out, available_in);
+    }
+
+    pub fn rule_pull_value_from_csr_memory(
+        node: &impl InstructionProperties,
+        available_out: &mut AvailableValueMap<Register>,
+        memory_out: &AvailableValueMap<MemoryLocation>,
+    ) {
+        super::rule_pull_value_from_csr_memory(node, available_out, memory_out);
+    }
+}
